@@ -12,6 +12,8 @@ SYMX_NOTE = ("Trusted: rustc; the symbolic Uint128 shim (every run re-executes e
 CLAIMED = {
     "C01": ("model_checking", "symbolic execution of the real vAMM contract through a symbolic Uint128 + SMT (z3) proof of k-monotonicity, base+net=initial and failed-swap-unchanged for ALL reserve pairs/amounts/limits; 1-3 step sequences",
             "DESIGN.md §4 C01"),
+    "C19": ("model_checking", "two engines: (1) Kani/CBMC bit-precise harnesses over ALL 2^129 operand representations (incl. -0) for add/sub/neg/abs/constructors/cmp/eq/sign predicates and checked-vs-unchecked agreement, loop-free so complete for the input space (thorough adds full-width checked_mul); (2) symx/z3 for full-width mul, truncating div, add/sub, ordering and the Display/FromStr/serde round trip with symbolic 128-bit magnitudes",
+            "DESIGN.md §3, §4 C19"),
 }
 NOT_YET = "check not built yet in this round (planned: symx scenario family, see DESIGN.md §4)"
 
@@ -25,10 +27,10 @@ for i in ids:
             "thorough_cmd": f"./check {i} thorough",
             "evidence_file": f"evidence/{i}.json",
             "replay_cmd_template": f"./check {i} quick --replay {{path}}",
-            "engine": "symx",
+            "engine": "symx+kani" if i == "C19" else "symx",
             "level_claimed": {"category": cat, "text": text, "design_ref": ref},
             "level_note": SYMX_NOTE,
-            "technique": "native symbolic execution of the compiled contract code (symbolic Uint128) with SMT-decided path forks and proof obligations (z3/cvc5)",
+            "technique": ("Kani/CBMC bounded model checking of Integer (SAT, all operand bit patterns) + " if i == "C19" else "") + "native symbolic execution of the compiled contract code (symbolic Uint128) with SMT-decided path forks and proof obligations (z3/cvc5)",
         })
     else:
         na.append({"property_id": i, "reason": NOT_YET})
@@ -40,8 +42,10 @@ m = {
               "baseline_off_cmd": "cd /repo && cargo test --workspace --no-fail-fast --offline",
               "source_commits": [], "add_only": True},
     "engines": [
-        {"name": "symx", "path": "symx/", "serves_properties": [c["property_id"] for c in checks if c["engine"] == "symx"],
+        {"name": "symx", "path": "symx/", "serves_properties": [c["property_id"] for c in checks if "symx" in c["engine"]],
          "kind_free_text": "symbolic execution of the natively compiled contracts via a symbolic cosmwasm_std::Uint128; z3 decides forks and obligations; replay and trace validation on a second build against the real cosmwasm-std"},
+        {"name": "kani", "path": "kani/intprops", "serves_properties": ["C19"],
+         "kind_free_text": "Kani 0.68 / CBMC 6.11 proof harnesses over the real margined_common::integer::Integer; counterexamples replayed natively by kani/intprops/src/bin/replay.rs"},
     ],
     "checks": checks,
     "not_applicable": na,
